@@ -7,6 +7,20 @@ NOTE_COMMON = ("Trusted: Lean 4.33 kernel; axioms propext/Classical.choice/Quot.
                "(harness links /repo's crates by path and is rebuilt on every run), which samples; rustc/std/half/serde semantics are modelled. ")
 
 CHECKS = {
+ "C01": dict(
+   text="Model of every built-in Encode/Decode impl as a universe of codec shapes (lean/Minicbor/Types.lean: 23 type constructors covering the ~190 registered Rust "
+        "instantiations); Lean theorem (being completed, see level_note): encodeT t v = some bs -> decodeT t (bs ++ rest) = ok v rest for every type without an Option "
+        "directly inside an Option, by structural induction over values of unbounded size. Correspondence: for every registered instantiation, boundary + random values: "
+        "implementation bytes vs model bytes, then decode of the implementation's own bytes; oracle = the property itself (value text equal, floats bitwise, sets/maps "
+        "unordered, position == length) and comparison with the model.",
+   design="5/C01", technique="Lean 4 proof (mutual structural induction over the type/value universe) + differential correspondence on ~190 concrete Rust types",
+   note="the general theorems are being added to lean/Minicbor/Thm/C01.lean (the evidence file lists what was audited on each run); Token round-trip is covered by C11"),
+ "C07": dict(
+   text="Lean theorems (being completed, see level_note): lenT t v = length of encodeT t v for the whole built-in universe and Token.len = length of Token.enc for all 26 "
+        "token variants (after the fix: commit 6736830). Correspondence: `tenc` of the C01 corpus and `tokenc` of boundary/random token lists: reported len must equal the "
+        "number of bytes written, and both must equal the model's.",
+   design="5/C07", technique="Lean 4 proof (same induction as C01; finite case split for tokens) + differential correspondence",
+   note="derived CborLen (minicbor-derive/src/cbor_len.rs) is covered by the C08-C10 machinery (derive model, K2/K3 known findings) once it lands; exact-buffer consequence is C13's sink theorem"),
  "C03": dict(
    text="Lean theorems: every Encoder method of the model writes exactly the RFC 8949 preferred serialisation (encPref) of the value it denotes, "
         "for all arguments of its Rust type (u8..u64, i8..i64, Int over [-2^64,2^64-1], type_len for all majors, bytes/str of any length, floats, "
